@@ -389,10 +389,11 @@ Applicable(q) ==
      \cup (IF \E sel \in S : sel.sh = "empty" THEN {"attrless_le", "distinct"} ELSE {})
 
 \* the smallest set of deviation rules that has to be switched off to make the plan conform
-ExplainWith(q, db, d) ==
-  LET good == {S \in SUBSET Applicable(q) : ConformsAll(PlanEval(q, db, AllFlags \ S), d, q, db)}
+\* (CF = the deviation rules the code is believed to have)
+ExplainWith(q, db, d, CF) ==
+  LET good == {S \in SUBSET (Applicable(q) \cap CF) : ConformsAll(PlanEval(q, db, CF \ S), d, q, db)}
   IN IF good = {} THEN {"UNEXPLAINED"}
      ELSE CHOOSE S \in good : \A S2 \in good : Cardinality(S) <= Cardinality(S2)
-Explain(q, db) == ExplainWith(q, db, Eval(q, db))
+Explain(q, db) == ExplainWith(q, db, Eval(q, db), AllFlags)
 
 =============================================================================
